@@ -23,10 +23,10 @@ RULE = ("781 real RF24Network nodes (every valid address of levels 0..4) on one 
         "must be accepted by exactly the nodes of that level on pipe 0. Non-trivial: a "
         "transmission was observed; distinct = (byte set, multicast flag, node, destination "
         "class, role).")
-RULE += (" Later rounds added: per-node histories (interleaved unicasts/multicasts, hops that fail outright) judged like first transmissions incl. the identity of the frame on air; nodes re-addressed at run time compared with fresh ones; partial/extreme address byte customisations; one node customising its bytes in place must not affect the others.")
+RULE += (" Later rounds added: per-node histories (interleaved unicasts/multicasts, hops that fail outright) judged like first transmissions incl. the identity of the frame on air; nodes re-addressed at run time compared with fresh ones; partial/extreme address byte customisations; one node customising its bytes in place must not affect the others. Relaying nodes of every level: the re-broadcast is accepted by exactly the next level (by nobody from level 4).")
 REQUIRED = {"listening_entries": 4000, "next_hop_origin": 1000, "next_hop_router": 1000,
             "multicast_level": 50, "path_composition": 500, "history_independent": 300,
-            "readdressed_like_fresh": 30, "inplace_isolated": 100}
+            "readdressed_like_fresh": 30, "inplace_isolated": 100, "relay_next_level": 50}
 BUDGET = {"quick": 600, "thorough": 1500}
 EXHAUSTIVE = {"quick": "all 781x6 listening entries (default bytes, multicast on and off)",
               "thorough": "all 781x780 (source, destination) pairs in both roles with default bytes; all 781x6 listening entries for every byte set"}
@@ -144,6 +144,7 @@ def run_shard(ctx):
                 continue
             if mc:
                 multicast_checks(ctx, net, mine, rng, ci)
+                relay_checks(ctx, net, mine, ctx.sub_rng("c04relay", ctx.shard, ci), ci)
             if ci < 2 or ctx.tier == "thorough":
                 history_checks(ctx, net, mine, rng, ci, mc)
                 readdress_checks(ctx, net, mine, rng, ci, mc)
@@ -362,6 +363,42 @@ def multicast_checks(ctx, net, mine, rng, ci):
                 ctx.nontrivial((ci, "mc", net_ref.level(n), lvl))
 
 
+def relay_checks(ctx, net, mine, rng, ci):
+    """a node with multicast_relay on passes a multicast it receives on to the NEXT level: that
+    re-broadcast is 'a multicast addressed to that level' too - accepted by exactly the nodes of
+    level+1 (levels 1..3), and by nobody when there is no next level (level 4)"""
+    picks = [a for a in mine if a in (0o1, 0o3, 0o21, 0o45, 0o321, 0o543, 0o4321, 0o1111, 0o5555)]
+    picks += rng.sample([a for a in mine if a], min(3, len([a for a in mine if a])))
+    for n in picks:
+        lvl = net_ref.level(n)
+        o = net.objs[n]
+        net.clear_rx()
+        o.multicast_relay = True
+        node = net.node
+        node.deadline = node.t + 2000 * W.MS
+        try:
+            _UNIQ[0] = (_UNIQ[0] + 1) & 0xFFFF
+            net.radios[n].inject_rx(0, net_ref.pack_header(0o2 if n != 0o2 else 0o3, 0o100, _UNIQ[0], 9, 0) + b"relay me")
+            o.update()
+            while o.available():
+                o.read()
+        finally:
+            node.deadline = None
+            o.multicast_relay = False
+        rec, pkt = net.first_tx(n)
+        ctx.clause("relay_next_level")
+        case = {"cfg": ci, "n": n, "relay": True}
+        got = sorted(a for a, p in rec) if pkt is not None else []
+        want = sorted(a for a in ALL if net_ref.level(a) == lvl + 1 and a != n) if lvl < 4 else []
+        if pkt is None or got != want or any(p != 0 for a, p in rec):
+            ctx.violation("relay-wrong-level", "node %o (level %d) relaying a multicast: %s, accepted by %d nodes of "
+                          "level(s) %r, expected %d nodes of level %d"
+                          % (n, lvl, "nothing transmitted" if pkt is None else "sent to %s" % pkt.addr.hex(), len(got),
+                             sorted({net_ref.level(a) for a in got}), len(want), lvl + 1), case)
+            return
+        ctx.nontrivial((ci, "relay", lvl))
+
+
 SPECIAL = (0, 0o1, 0o2, 0o5, 0o11, 0o21, 0o15, 0o444, 0o4443, 0o3444, 0o1111, 0o311)
 
 
@@ -513,6 +550,8 @@ def run_case(ctx, case):
     try:
         if "n" not in case:
             table_checks(ctx, net, prefix, suffix, mc, case.get("cfg", 0))
+        elif case.get("relay"):
+            relay_checks(ctx, net, [case["n"]], ctx.sub_rng("replay"), case.get("cfg", 0))
         elif "level" in case:
             multicast_checks(ctx, net, [case["n"]], ctx.sub_rng("replay"), case.get("cfg", 0))
         else:
